@@ -65,12 +65,15 @@ def minimise(desc, cls, still_fails, budget=80, wall_s=60.0):
             if (cur.get("workers") or 0) > w:
                 if attempt(f"workers->{w}", lambda d, w=w: d.__setitem__("workers", w)):
                     break
-    # 3. ops of engine P (drop earlier operations)
-    if cur.get("ops"):
-        i = 0
-        while i < len(cur["ops"]):
-            if not attempt(f"drop op {i}", lambda d, i=i: d["ops"].pop(i)):
-                i += 1
+    # 3. ops of engine P / instance history of engine G (drop earlier operations)
+    for key in ("ops", "history"):
+        if cur.get(key):
+            if attempt(f"drop all {key}", lambda d, key=key: d.__setitem__(key, [])):
+                continue
+            i = 0
+            while i < len(cur[key]):
+                if not attempt(f"drop {key}[{i}]", lambda d, i=i, key=key: d[key].pop(i)):
+                    i += 1
     # 4. configuration
     cfg = cur.get("config")
     if isinstance(cfg, dict):
